@@ -212,6 +212,21 @@ Theorem all_rerunners_stopped_after_close : forall w p rid ru,
 Proof. exact ProofsProduct.all_rerunners_stopped_after_close_l. Qed.
 Print Assumptions all_rerunners_stopped_after_close.
 
+(** Ends exactly once, in the reactive package: along every history of the product the number of steps at which
+    Stop's critical section runs on rerunner [rid] - read off the reactive side, as the hook stop.mark reports
+    it - is 1 if the connection has ended the subscription and 0 otherwise: never twice, and never on a
+    subscription that is still live.  ([ends_exactly_once] is the same count on the connection's side;
+    [interface_agrees] below joins the two.) *)
+Theorem stop_runs_exactly_once : forall w h p rid,
+  prun w (pinit w) h = Some p -> rid < pool w ->
+  stop_count w (pinit w) h rid = if stopped_in (fst p) rid then 1 else 0.
+Proof. exact ProofsProduct.stop_runs_exactly_once_l. Qed.
+Print Assumptions stop_runs_exactly_once.
+
+Example stop_runs_example :
+  stop_count wx (pinit wx) h_end 0 = 1 /\ stop_count wx (pinit wx) h_end 1 = 1 /\ stop_count wx (pinit wx) h_live 0 = 0.
+Proof. exact stop_count_example. Qed.
+
 (** The interface between the two models is the one the check observes.  Server/Iface.v derives from a step of
     the connection model what reactive/rerunner.go reports at its observation points (Stop's critical section
     and whether a computation was held, publish and whether there was a previous computation, a non-retry
